@@ -49,6 +49,7 @@ func optBits(x any) uint16 { return stackage.VerifDump(x).Opt }
 
 type optSetup struct {
 	rejected bool // a validity closure that currently rejects the stack is installed
+	erred    int  // 1: an error is parked on the instance (SetErr); 2: a Condition born invalid (the constructor parks the error)
 	mutex    bool
 	kind     string
 	isCond   bool
@@ -60,7 +61,20 @@ type optSetup struct {
 
 func (su *optSetup) fresh() any {
 	if su.isCond {
+		switch su.erred {
+		case 1:
+			return stackage.Cond("kw", stackage.Eq, "val").SetErr(errCat)
+		case 2:
+			return stackage.Cond("", stackage.Eq, "val")
+		}
 		return stackage.Cond("kw", stackage.Eq, "val")
+	}
+	if su.erred == 1 {
+		s := newStackKind(su.kind).Push("a", stackage.List().Push("b", "c"), "d")
+		if su.mutex {
+			s.SetMutex()
+		}
+		return s.SetErr(errCat) // options and their getters have no business with a pending error
 	}
 	s := newStackKind(su.kind).Push("a", stackage.List().Push("b", "c"), "d")
 	if su.mutex {
@@ -862,6 +876,20 @@ func init() {
 			m3 := c18OptMachine(c, sm3)
 			m3.Name += " validity-rejecting"
 			om = append(om, m3)
+		}
+		// an error parked on the instance: options are set, cleared, inverted and reported as ever
+		for _, v := range []struct {
+			kind   string
+			isCond bool
+			erred  int
+			tag    string
+		}{{"AND", false, 1, " error-pending"}, {"CONDITION", true, 1, " error-pending"}, {"CONDITION", true, 2, " born-invalid"}} {
+			if se, e := newOptSetup(v.kind, v.isCond); e == "" {
+				se.erred, se.rejected = v.erred, true
+				m := c18OptMachine(c, se)
+				m.Name += v.tag
+				om = append(om, m)
+			}
 		}
 		sm = append(sm, c18SetMachine(c, "NOT mutex", 0))
 		lm = append(lm, c18LvlMachine(c, "AND", true), c18LvlMachine(c, "Condition", tier == "thorough"))
